@@ -10,6 +10,10 @@ def run(ctx):
         return ctx.finish()
     rxcommon.design(ctx, thorough)
     rxcommon.reader_design(ctx)
+    # the order of queued packages and the connection's error in NextPackage
+    ctx.tlc_mc("", "RecvOrder", "MC_RecvOrder.cfg", workers=2)
+    ctx.tlc_expect_violation("", "RecvOrder", "MC_RecvOrder_AsIs.cfg",
+                             "pinned NextPackage: the select takes the error of the connection while packages are still queued", workers=2)
     s1 = rxcommon.drive(ctx, "fail0", ["-fail", 60 if thorough else 8, "-failtimeout", 0],
                         "every byte offset x {EOF, reset, timeout, EOF with the last bytes}, read timeout 0 s", env=env)
     s2 = rxcommon.drive(ctx, "fail1", ["-fail", 12 if thorough else 3, "-failtimeout", 1, "-failstep", 7 if thorough else 23],
